@@ -56,6 +56,9 @@ def evaluation_order(case, rg):
         if len(ch) != 1:
             raise Violation("randomize_prior_order=True: expected exactly one rng.choice call on the sampler's "
                             "generator, saw %d" % len(ch))
+        pop = ch[0]["args"][0] if ch[0]["args"] else ch[0]["kwargs"].get("a")
+        if not (np.ndim(pop) == 0 and int(pop) == n):
+            raise Violation("the shuffled evaluation order is not drawn from the whole library (%d rows)" % n, population=repr(pop)[:80])
         idx = np.asarray(ch[0]["out"])
         if len(idx) != n_prior or len(set(idx.tolist())) != len(idx) or idx.min() < 0 or idx.max() >= n:
             raise Violation("shuffled order is not %d distinct rows of the library" % n_prior, idx=idx)
@@ -96,7 +99,10 @@ def run_rejection(ctx, case, lib=None, lls=None, iterative=None, order_fn=None):
     n = case["n"]
     lls = profile_of(case) if lls is None else lls
     helper = fakes.ScriptedHelper(lls)
-    lib = fakes.scripted_library(n, units=case.get("lib_units")) if lib is None else lib
+    if lib is None:
+        lib = fakes.scripted_library(n, units=case.get("lib_units"))
+        # make the stored ln_prior values specific to this library (a value cached from another one must show)
+        lib["ln_prior"] = np.asarray(lib["ln_prior"]) - 0.001 * (case.get("profile_seed", 0) % 997)
     holder = [None]
     steer = make_steer(case, lls, holder, order_fn)
     rg = SteeringGenerator(np.random.PCG64(case["rng_seed"]), uniforms=[steer] * 200 if steer else None)
